@@ -16,7 +16,7 @@ EXPLANATION = (
     "identifier, and remove it; the window rejection is an ORDERING comparison of the number of pending requests with the "
     "current window that dominates every effect and raises MQTTWindowError; lifecycle: a window that a non-clean loss does "
     "not drain must be re-sent by the resume path and drained by the clean-start purge. Decides the structural clauses; "
-    "interleavings are not explored. S-FRAME: the premises of the framing lemma (every rule of C03) hold, a necessary condition of anything said about inbound packets.")
+    "interleavings are not explored. S-FRAME: the premises of the framing lemma (every rule of C03) hold, a necessary condition of anything said about inbound packets. S-REACH: no SUBACK/UNSUBACK handler cancels, without an .active() test, a handle that a retry routine can leave stored after it fired - the exception would precede the callback.")
 ASSUMPTIONS = ["the window size can be lowered at any time (setWindowSize), so an equality test does not bound the window"]
 
 KIND = {"subscribe": ("windowSubscribe", "SUBSCRIBE", "SUBACK"), "unsubscribe": ("windowUnsubscribe", "UNSUBSCRIBE", "UNSUBACK")}
@@ -212,6 +212,8 @@ def check(ctx):
     from ..handles import handles
     for cls in classes:
         timer_discipline(ctx, a, cls, regs=("windowSubscribe", "windowUnsubscribe"), r_cancel="S-TIMER", r_arm="S-TIMER")
+        from .flows import rule_ack_reaches_fire
+        rule_ack_reaches_fire(ctx, a, cls, "S-REACH", ("windowSubscribe", "windowUnsubscribe"), ("SUBACK", "UNSUBACK"))
         hd = handles(a, cls)
         for tr, what, ok, ev in hd.loss_obligations():
             if "windowSubscribe" in what or "windowUnsubscribe" in what:
